@@ -131,7 +131,13 @@ func (g *VCGen) modLoc(env *SpecEnv, e Expr) []modLoc {
 		case "chanof":
 			g.chanHeaps()
 			ch := env.tr(x.Args[0])
-			return []modLoc{{heap: chanSendsHeap, kind: "obj", ref: ch.T}, {heap: chanClosedHeap, kind: "obj", ref: ch.T}, {heap: chanCapHeap, kind: "obj", ref: ch.T}, {heap: chanRecvsHeap, kind: "obj", ref: ch.T}}
+			locs := []modLoc{{heap: chanSendsHeap, kind: "obj", ref: ch.T}, {heap: chanClosedHeap, kind: "obj", ref: ch.T}, {heap: chanCapHeap, kind: "obj", ref: ch.T}, {heap: chanRecvsHeap, kind: "obj", ref: ch.T}}
+			if ch.Go != nil {
+				if ct, ok := ch.Go.Underlying().(*types.Chan); ok {
+					locs = append(locs, modLoc{heap: g.lastRecvHeap(g.so.sortOf(ct.Elem())), kind: "obj", ref: ch.T})
+				}
+			}
+			return locs
 		case "chanstate":
 			g.chanHeaps()
 			return []modLoc{{heap: chanSendsHeap, kind: "global"}, {heap: chanClosedHeap, kind: "global"}, {heap: chanRecvsHeap, kind: "global"}}
@@ -165,8 +171,8 @@ func (g *VCGen) modLoc(env *SpecEnv, e Expr) []modLoc {
 func (g *VCGen) frameFormula(pre, post *State, locs []modLoc, heaps []string) string {
 	var parts []string
 	for _, h := range heaps {
-		if g.immutableHeap(h) {
-			continue
+		if g.immutableHeap(h) || strings.HasPrefix(h, "IT!") {
+			continue // IT!: ghost iteration / defer bookkeeping of this activation, not program state
 		}
 		a, b := g.heapTerm(pre, h), g.heapTerm(post, h)
 		if a == b {
@@ -175,6 +181,9 @@ func (g *VCGen) frameFormula(pre, post *State, locs []modLoc, heaps []string) st
 		var mine []modLoc
 		whole := false
 		for _, l := range locs {
+			if strings.HasPrefix(h, "HC!last!") && l.heap == chanRecvsHeap && l.kind == "global" {
+				whole = true // chanstate() covers the last-received ghost of every channel
+			}
 			if l.heap == h {
 				mine = append(mine, l)
 				if l.kind == "heap" || l.kind == "global" {
